@@ -12,6 +12,7 @@ Layers
 import os
 import posixpath
 import re
+import shutil
 import signal
 
 from vlib import driver, fuzz
@@ -300,7 +301,7 @@ def check_api(case) -> Verdict:
     r = ref.read_document(files, root, symlinks=links)
     labels = _labels_of(r) + [_root_label(case)]
     nontrivial = _is_nontrivial(r) and not r.ambiguous
-    with driver.Workspace() as ws:
+    with _ApiWorkspace() as ws:
         _materialise(ws, case)
         obs = observe_api(ws.home, root, bool(case.get('root_abs')))
 
@@ -357,6 +358,32 @@ def check_api(case) -> Verdict:
             return Verdict(ok=False, known=KF_SWALLOW, bucket='api/' + bad[0], detail=detail,
                            labels=labels + ['known:' + KF_SWALLOW], nontrivial=nontrivial)
     return fail('api/' + bad[0], detail, labels=labels, nontrivial=nontrivial)
+
+
+class _ApiWorkspace:
+    """a directory with the files of a case, for checks that only *read* the case (nothing is executed)"""
+    _counter = 0
+
+    def __init__(self):
+        _ApiWorkspace._counter += 1
+        self.home = os.path.join(driver.work_base(), 'a%d' % _ApiWorkspace._counter)
+        if os.path.exists(self.home):
+            shutil.rmtree(self.home)
+        os.mkdir(self.home)
+
+    def write(self, rel, text):
+        path = os.path.join(self.home, rel)
+        d = os.path.dirname(path)
+        if d != self.home and not os.path.isdir(d):
+            os.makedirs(d)
+        with open(path, 'w', encoding='utf-8', newline='') as f:
+            f.write(text.replace('{HOME}', self.home))
+
+    def __enter__(self):
+        return self
+
+    def __exit__(self, *a):
+        shutil.rmtree(self.home, ignore_errors=True)
 
 
 def _materialise(ws, case):
